@@ -4,7 +4,7 @@
    rfc_decode / rfc_repr / rfc_int / rfc_string / rfc_huff_decode are the RFC 7541 reference (specification). *)
 From Coq Require Import List ZArith Bool.
 From Bfe Require Import lib.Val lib.Bytes gen.HpackTables model.Huffman model.Hpack run.RunC31
-  proofs.HuffmanProofs proofs.HuffmanTrieProofs proofs.HpackProofs proofs.HpackRfcProofs proofs.HpackC31Proofs.
+  proofs.HuffmanProofs proofs.HuffmanTrieProofs proofs.HpackProofs proofs.HpackRfcProofs proofs.HpackIncrProofs proofs.HpackC31Proofs.
 Import ListNotations.
 Open Scope Z_scope.
 
@@ -20,31 +20,43 @@ Theorem C31_varint_refines_rfc : forall n p, 0 <= n -> wf_bytes p = true -> rd_r
 Proof. exact read_varint_rfc. Qed.
 Print Assumptions C31_varint_refines_rfc.
 
-(* HEADLINE (whole-block delivery).  For every table size mx >= 0 and EVERY byte string p, the decoder model
-   (NewDecoder(mx); Write(p); Close()) with the RFC Huffman decoder never reaches a panic site (nil node,
-   eviction from an empty table) and: if the RFC reference decoder accepts p, the model reports no error, emitted
-   exactly the reference fields (names, values, never-index flags) and holds the same dynamic table (entries,
-   maximum); if the reference rejects p (index 0 or beyond the tables, size update above the allowed maximum,
-   integer longer than 9 continuation octets, bad Huffman padding / EOS, truncated block) the model reports an error. *)
-Theorem C31_decoder_refines_rfc_partial : forall mx p, 0 <= mx -> wf_bytes p = true ->
-  let '(d, fs, st) := dec_run huff_decode_spec (new_decoder mx) [p] [] in
+(* C31_incremental.  For EVERY Huffman decoder function hd, every decoder state d and every list of chunks, feeding
+   the chunks one Write at a time (stopping at the first error, then Close) gives exactly the same final state,
+   emitted fields and status as one Write of their concatenation: the saveBuf / errNeedMore logic is transparent. *)
+Theorem C31_incremental : forall hd chunks d acc, dec_run hd d chunks acc = dec_run hd d [concat chunks] acc.
+Proof. exact dec_run_concat. Qed.
+Print Assumptions C31_incremental.
+
+(* HEADLINE.  For every table size mx >= 0 and EVERY list of byte-string chunks, the decoder model
+   (NewDecoder(mx); Write(chunk)...; Close()) never reaches a panic site (nil trie node, eviction from an empty
+   table) and: if the RFC 7541 reference decoder accepts the concatenated input, the model reports no error,
+   emitted exactly the reference fields (names, values, never-index flags) and holds the same dynamic table
+   (entries, maximum); if the reference rejects it (index 0 or beyond the tables, size update above the allowed
+   maximum - however large - or after the first field of the block (4.2), integer longer than 9 continuation
+   octets, Huffman padding > 7 bits / not all ones / EOS / incomplete code, truncated block) the model reports
+   an error.  Huffman strings are decoded by the RFC bit-level decoder in both. *)
+Theorem C31_decoder_refines_rfc : forall mx chunks, 0 <= mx -> forallb wf_bytes chunks = true ->
+  let '(d, fs, st) := dec_run huff_decode_spec (new_decoder mx) chunks [] in
   st <> ST_PANIC /\
-  match rfc_decode mx p with
+  match rfc_decode mx (concat chunks) with
   | Some (t, want) => st = 0 /\ fs = want /\ trel (ddt d) t
   | None => st <> 0
   end.
-Proof. exact decoder_refines_rfc_oneshot. Qed.
-Print Assumptions C31_decoder_refines_rfc_partial.
-(* Full statement not proved (see level_note):
-     forall chunks, the same for dec_run huff_decode (new_decoder mx) chunks [] against rfc_decode mx (concat chunks)
-   i.e. (1) arbitrary splitting across Write calls (C31_incremental) and (2) the byte-trie Huffman decoder in place
-   of the bit-level one.  Both are tied by the correspondence check (random splits, crafted Huffman tails). *)
+Proof. exact decoder_refines_rfc. Qed.
+Print Assumptions C31_decoder_refines_rfc.
 
-(* the same through the executable predicate that the harness evaluates on the implementation's observation *)
-Theorem C31_prop_of_model : forall mx p, 0 <= mx -> wf_bytes p = true ->
-  prop_C31 (VL [VZ mx; VL [VB p]]) (observe huff_decode_spec mx [p]) = true.
-Proof. exact prop_C31_of_model_oneshot. Qed.
-Print Assumptions C31_prop_of_model.
+(* CENTRAL THEOREM: on every well-formed wire input the model's output satisfies the executable property that the
+   harness evaluates on the implementation's observation (no finding class: kf_C31 = 0 everywhere).
+   run_C31 uses the bit-level Huffman decoder; agree_C31 additionally requires the byte-trie transcription
+   (huff_decode) to give the same observation - see C31_trie_step_agrees and level_note. *)
+Theorem C31_central : forall i, wf_C31 i = true -> kf_C31 i = 0 -> prop_C31 i (run_C31 i) = true.
+Proof. exact C31_central_lemma. Qed.
+Print Assumptions C31_central.
+Example C31_central_nonvacuous :
+  wf_C31 ex_input31 = true /\ agree_C31 ex_input31 (run_C31 ex_input31) = true
+  /\ run_C31 ex_input31 = VL [VL [VL [VB [58;109;101;116;104;111;100]; VB [71;69;84]; VZ 0]; VL [VB [120]; VB [48]; VZ 0];
+                                   VL [VB [120]; VB [48]; VZ 0]]; VZ 0; VZ 34; VZ 64; VZ 1].
+Proof. exact ex_input31_ok. Qed.
 
 (* The 256-ary trie built by the transcription of addDecoderNode agrees with the bit-level code on every
    (internal node, next byte) pair - 15 x 256 cases - and on 1280 encoded strings covering every symbol. *)
@@ -56,7 +68,7 @@ Print Assumptions C31_trie_step_agrees.
    error in the trie model and in the reference; a valid block (":method: GET", then a literal with incremental
    indexing using a Huffman value with 3 bits of padding) is accepted with two fields. *)
 Example C31_witness_rejected :
-  run_C31 (VL [VZ 4096; VL [VB [0;0;133;0;127;255;255;255]]]) = VL [VL []; VZ 4; VZ 0; VZ 4096; VZ 0]
+  run_C31_trie (VL [VZ 4096; VL [VB [0;0;133;0;127;255;255;255]]]) = VL [VL []; VZ 4; VZ 0; VZ 4096; VZ 0]
   /\ rfc_decode 4096 [0;0;133;0;127;255;255;255] = None.
 Proof. exact (conj eq_refl eq_refl). Qed.
 Example C31_valid_accepted :
